@@ -405,8 +405,11 @@ class ArgumentParser:
         if unrecognized:
             log.warning(f"Unrecognized arguments: '{' '.join(unrecognized)}'")
 
-        # Construct final list of active modes.
-        args.modes = set(args.modes)
+        # Construct final list of active modes: each mode once, in the order
+        # in which the command line activated them (not in set order, which
+        # changes with the string hash seed and decides which definition of a
+        # macro wins when two modes define it differently).
+        args.modes = list(dict.fromkeys(args.modes))
 
         # Construct final list of active passes.
         args.passes = set(args.passes)
